@@ -56,7 +56,7 @@ def n_cases(tier):
 def slow_sinks(prog, rng):
     for s in prog['nodes']:
         if s['op'] == 'sink' and rng.random() < 0.8:
-            s['kind'] = rng.choice(['coro', 'future', 'tornado'])
+            s['kind'] = rng.choice(['coro', 'future', 'tornado', 'awaitable'])
             if s['svc'] == [0]:
                 s['svc'] = [rng.choice([0.25, 0.5, 1.0])]
 
@@ -98,7 +98,7 @@ def gen_case(rng, fam):
         if rng.random() < 0.4:
             nodes.append({'id': 'm', 'op': 'map', 'ups': [last], 'f': 'ident'})
             last = 'm'
-        nodes.append({'id': 'sk', 'op': 'sink', 'ups': [last], 'kind': rng.choice(['coro', 'future', 'tornado']),
+        nodes.append({'id': 'sk', 'op': 'sink', 'ups': [last], 'kind': rng.choice(['coro', 'future', 'tornado', 'awaitable']),
                       'svc': [x or 0.25 for x in g._svc()] if rng.random() < 0.8 else [0]})
         prog = {'nodes': nodes, 'extra_edges': []}
         entries = [s['id'] for s in nodes if s['op'] == 'source']
@@ -130,6 +130,9 @@ def gen_case(rng, fam):
                      'sink_kind': 'coro', 'sink_ms': 0, 'fwd_ms': [rng.choice([5, 20, 60]) for _ in range(3)]})
         return case
     if rng.random() < 0.3:
+        # the caller threads run an event loop of their own and call the blocking emit from a coroutine on it
+        case['caller_loop'] = True
+    if rng.random() < 0.3:
         # a consumer that outlasts the internal polling period of the blocking wait: the harness scales the
         # timeouts streamz passes to threading.Event.wait by 1/100 (10 s -> 0.1 s) and makes the consumer take 0.25 s
         case.update({'scaled_waits': True, 'sink_ms': 250, 'per_thread': 1, 'threads': rng.choice([1, 2]),
@@ -160,7 +163,14 @@ def check_async(case, counters, sets):
         add('C03:loop-exception:%s' % (type(exc).__name__ if exc is not None else 'log'), '%s %s %r' % (name, msg[:200], exc))
     for i, exc in ar.emit_exc.items():
         add('C03:emit-raised:%s' % type(exc).__name__, 'emit #%d raised %r' % (i, exc))
-    open_calls = sum(1 for e in log.ev if e[2] == 'START') - sum(1 for e in log.ev if e[2] in ('END', 'FAILED'))
+    # a consumer call is open from the moment the consumer function is invoked (CALLED) -- for a coroutine-style consumer
+    # that is before its body runs -- until it reports END / FAILED
+    open_calls = sum(1 for e in log.ev if e[2] == 'CALLED') - sum(1 for e in log.ev if e[2] in ('END', 'FAILED'))
+    if open_calls > 0 and not ar.pending_emits and ar.producers_done and not ar.emit_exc and fam in ('A1', 'A2'):
+        never = [e for e in log.ev if e[2] == 'CALLED' and not any(f[2] in ('END', 'FAILED') and f[3] == e[3] and f[5] == e[5] for f in log.ev)]
+        if never:
+            add('C03:emit-completed-but-consumer-call-never-ended', 'loop %s: every emit has completed, yet the call of consumer %s '
+                'with %r (a %s-style consumer) never ended' % (ar.stop, never[0][3], never[0][4], specs[never[0][3]].get('kind')))
     if (ar.pending_emits or not ar.producers_done) and open_calls == 0:
         add('C03:emit-never-completed', 'loop %s, every consumer call has ended, but emits %s are still pending'
             % (ar.stop, sorted(ar.pending_emits)[:8]))
@@ -178,7 +188,7 @@ def check_async(case, counters, sets):
                     add('C03:emit-done-with-open-consumer-call', 'emit #%d completed at t=%s while %d consumer call(s) '
                         'had not ended' % (e[4], e[1], open_n))
                 in_window = True
-            elif k == 'START':
+            elif k == 'CALLED':
                 open_n += 1
                 if in_window:
                     add('C03:consumer-called-after-emit-done@%s' % up_op(e[3]),
@@ -402,6 +412,14 @@ def check_threaded(case, counters, sets):
                 rec('EMIT_RAISED', x, ex)
             else:
                 rec('EMIT_RETURNED', x)
+    if case.get('caller_loop'):
+        plain_worker = worker
+
+        def worker(t):          # noqa: F811
+            async def main():
+                plain_worker(t)
+            asyncio.run(main())
+        counters['T_cases_with_caller_side_event_loop'] = counters.get('T_cases_with_caller_side_event_loop', 0) + 1
     ths = [threading.Thread(target=worker, args=(t,), daemon=True) for t in range(case['threads'])]
     for t in ths:
         t.start()
